@@ -768,6 +768,9 @@ impl ConnectionPool {
         client_stats.waiting();
 
         while !candidates.is_empty() {
+            // A failed candidate marks the client idle, but it is still waiting for a server.
+            client_stats.waiting();
+
             // Get the next candidate
             let address = match candidates.pop() {
                 Some(address) => address,
